@@ -21,11 +21,12 @@
 EXTENDS Phout, Json, IOUtils
 
 VARIABLES l,         \* next line of the trace
-          kind, ids, \* of the current run
+          kind, ids, mode, \* of the current run (mode "cancel": an engine run cancelled from outside mid-run)
+          before,    \* mode "cancel": Report calls that had returned when the run was cancelled
           pending,   \* expected lines (phout: column tuples; jsonlines: samples) of reports not yet seen in the sink
           nrep, nwritten, cancelled, closed, ended, bad
 
-vars == <<l, kind, ids, pending, nrep, nwritten, cancelled, closed, ended, bad>>
+vars == <<l, kind, ids, mode, before, pending, nrep, nwritten, cancelled, closed, ended, bad>>
 
 Trace == ndJsonDeserialize(IOEnv.VERIF_TRACE)
 Ev == Trace[l]
@@ -40,11 +41,11 @@ RemoveAt(seq, i) == [j \in 1..(Len(seq) - 1) |-> IF j < i THEN seq[j] ELSE seq[j
 Matches(x) == {i \in DOMAIN pending : pending[i] = x}
 Min(S) == CHOOSE i \in S : \A j \in S : i <= j
 
-Init == /\ l = 1 /\ kind = "" /\ ids = FALSE /\ pending = <<>> /\ nrep = 0 /\ nwritten = 0
+Init == /\ l = 1 /\ kind = "" /\ ids = FALSE /\ mode = "" /\ before = -1 /\ pending = <<>> /\ nrep = 0 /\ nwritten = 0
         /\ cancelled = FALSE /\ closed = FALSE /\ ended = TRUE /\ bad = {}
 
 Run == /\ Ev.ev = "Run"
-       /\ kind' = Ev.kind /\ ids' = Ev.ids /\ pending' = <<>> /\ nrep' = 0 /\ nwritten' = 0
+       /\ kind' = Ev.kind /\ ids' = Ev.ids /\ mode' = Ev.mode /\ before' = -1 /\ pending' = <<>> /\ nrep' = 0 /\ nwritten' = 0
        /\ cancelled' = FALSE /\ closed' = FALSE /\ ended' = FALSE
        /\ bad' = bad \cup Flag(ended, "PreviousRunNotEnded")
 
@@ -52,8 +53,8 @@ Report == /\ Ev.ev = "Report"
           /\ pending' = Append(pending, Expect(Ev.s))
           /\ nrep' = nrep + 1
           /\ bad' = bad \cup Flag(WellFormedSample(Abs(Ev.s)), "DriverSampleOutsideDomain")
-                        \cup Flag(~cancelled, "DriverReportAfterCancel")
-          /\ UNCHANGED <<kind, ids, nwritten, cancelled, closed, ended>>
+                        \cup Flag(~cancelled \/ mode = "cancel", "DriverReportAfterCancel")
+          /\ UNCHANGED <<kind, ids, mode, before, nwritten, cancelled, closed, ended>>
 
 \* a complete line reached the sink
 Written(x) == /\ LET m == Matches(x) IN
@@ -62,43 +63,49 @@ Written(x) == /\ LET m == Matches(x) IN
                                \cup Flag(~closed, "WriteAfterClose")
                                \cup Flag(~ended, "WriteAfterReturn")
               /\ nwritten' = nwritten + 1
-              /\ UNCHANGED <<kind, ids, nrep, cancelled, closed, ended>>
+              /\ UNCHANGED <<kind, ids, mode, before, nrep, cancelled, closed, ended>>
 Line  == Ev.ev = "Line" /\ Written(Ev.c)
 JLine == Ev.ev = "JLine" /\ Written(Ev.s)
 
 BadLine == /\ Ev.ev \in {"BadLine", "WriteAfterClose"}
            /\ bad' = bad \cup (IF Ev.ev = "BadLine" THEN {"MalformedLine"} ELSE {"WriteAfterClose"})
            /\ nwritten' = nwritten + (IF Ev.ev = "BadLine" THEN 1 ELSE 0)
-           /\ UNCHANGED <<kind, ids, pending, nrep, cancelled, closed, ended>>
+           /\ UNCHANGED <<kind, ids, mode, before, pending, nrep, cancelled, closed, ended>>
 
 Cancel == /\ Ev.ev = "Cancel"
           /\ cancelled' = TRUE
-          /\ UNCHANGED <<kind, ids, pending, nrep, nwritten, closed, ended, bad>>
+          /\ before' = IF mode = "cancel" THEN Ev.returned_before ELSE before
+          /\ UNCHANGED <<kind, ids, mode, pending, nrep, nwritten, closed, ended, bad>>
 
 SinkClosed == /\ Ev.ev = "SinkClosed"
               /\ closed' = TRUE
               /\ bad' = bad \cup Flag(Ev.partial = 0, "PartialLastLine") \cup Flag(~closed, "ClosedTwice")
-              /\ UNCHANGED <<kind, ids, pending, nrep, nwritten, cancelled, ended>>
+              /\ UNCHANGED <<kind, ids, mode, before, pending, nrep, nwritten, cancelled, ended>>
 
 EngineEnd == /\ Ev.ev = "EngineEnd"
-             /\ bad' = bad \cup Flag(~Ev.timeout /\ Ev.err = "<nil>", "EngineRunFailed")
-             /\ UNCHANGED <<kind, ids, pending, nrep, nwritten, cancelled, closed, ended>>
+             /\ bad' = bad \cup Flag(~Ev.timeout, "EngineDidNotStop")
+                           \cup Flag(mode = "cancel" \/ Ev.err = "<nil>", "EngineRunFailed")
+             /\ UNCHANGED <<kind, ids, mode, before, pending, nrep, nwritten, cancelled, closed, ended>>
 
 \* Aggregator.Run returned: THE property (Aggregator!CompleteAtReturn on what is observable)
 RunEnd == /\ Ev.ev = "RunEnd"
           /\ ended' = TRUE
           /\ bad' = bad \cup Flag(~Ev.timeout, "RunDidNotReturn")
                         \cup Flag(closed, "NotClosedAtReturn")
-                        \cup Flag(CompleteCounts(nwritten, Ev.dropped, nrep), "LinesPlusDropsIsNotReports")
-                        \cup Flag(Len(pending) = Ev.dropped, "UnwrittenIsNotDropped")
+                        \cup (IF mode = "cancel"
+                              \* cancelled mid-run: shots in flight may report after the drain (Shutdown.tla: lateLost)
+                              THEN Flag(before >= 0 /\ CompleteBetween(nwritten, Ev.dropped, before, nrep),
+                                        "ReportsMadeBeforeTheCancelMissing")
+                              ELSE Flag(CompleteCounts(nwritten, Ev.dropped, nrep), "LinesPlusDropsIsNotReports")
+                                   \cup Flag(Len(pending) = Ev.dropped, "UnwrittenIsNotDropped"))
                         \cup Flag(kind = "phout" => Ev.dropped = 0, "BlockingAggregatorDropped")
                         \cup Flag(Ev.err = "", "UnexpectedRunError")
-          /\ UNCHANGED <<kind, ids, pending, nrep, nwritten, cancelled, closed>>
+          /\ UNCHANGED <<kind, ids, mode, before, pending, nrep, nwritten, cancelled, closed>>
 
 \* what the destination file finally holds is what the sink received
 Content == /\ Ev.ev = "Content"
            /\ bad' = bad \cup Flag(Ev.lines = nwritten /\ Ev.partial = 0, "ContentMismatch")
-           /\ UNCHANGED <<kind, ids, pending, nrep, nwritten, cancelled, closed, ended>>
+           /\ UNCHANGED <<kind, ids, mode, before, pending, nrep, nwritten, cancelled, closed, ended>>
 
 Next == /\ l <= Len(Trace)
         /\ l' = l + 1
